@@ -758,6 +758,7 @@ CO_ERR COSdoInitUploadBlock(CO_SDO *srv)
 
     if ((srv->Blk.SegNum < 0x01) ||
         (srv->Blk.SegNum > 0x7F)) {
+        srv->Blk.SegNum = 0;
         COSdoAbort(srv, CO_SDO_ERR_BLK_SIZE);
         COSdoAbortReq(srv);
         return (CO_ERR_SDO_ABORT);
@@ -937,6 +938,7 @@ CO_ERR COSdoAckUploadBlock(CO_SDO *srv)
         srv->Blk.SegNum = CO_GET_BYTE(srv->Frm, 2);
         if ((srv->Blk.SegNum < 0x01) ||
             (srv->Blk.SegNum > 0x7F)) {
+            srv->Blk.SegNum = 0;
             COSdoAbort(srv, CO_SDO_ERR_BLK_SIZE);
             COSdoAbortReq(srv);
             return (CO_ERR_SDO_ABORT);
